@@ -59,11 +59,14 @@ type Task struct {
 
 	fn func()
 
+	// wait groups (goroutines.go): set while the task waits for the counter to reach zero
+	wgWait *sync.WaitGroup
 	// condition variables (cond.go): set while the task waits for a Signal/Broadcast
 	condWait   *sync.Cond
 	condTicket uint64
 
-	// callback timers (timers.go)
+	// callback timers (timers.go) and goroutines of the code under test (goroutines.go)
+	reused    bool // finished, and its slot now belongs to a later task
 	timer     bool
 	handle    *time.Timer
 	deadline  time.Time
@@ -121,6 +124,8 @@ type Stats struct {
 	OverlapBuild   int // a task entered a StallSites site while another task was parked inside one
 	OnceWaits      int
 	CondWaits      int
+	GoTasks        int // goroutines started by the code under test that run as scheduled tasks
+	WgWaits        int
 	TimersArmed    int
 	TimersFired    int
 	TimerJumps     int // the clock was moved to the next timer deadline because nothing else could run
@@ -177,6 +182,8 @@ type Sim struct {
 	rwWaiting [64]rwWait
 	nRW       int
 	condSeq   uint64
+	wgs       [32]wgState
+	nWgs      int
 
 	checkGoid bool
 	wg        sync.WaitGroup
@@ -567,7 +574,7 @@ func (s *Sim) finish(t *Task) {
 func (s *Sim) candidates(buf []*Task) []*Task {
 	buf = buf[:0]
 	for _, o := range s.tasks {
-		if o.state != stRunnable || o.stalled || o.condWait != nil {
+		if o.state != stRunnable || o.stalled || o.condWait != nil || o.wgWait != nil {
 			continue
 		}
 		if o.blocked && o.blockedEpoch == s.unlockEpoch {
